@@ -41,6 +41,9 @@ def commb_frame(rng, addr):
     mbits = spec.background(rng, 56, rng.choice(["rand", "zero", "rand"]))
     if rng.random() < 0.5:
         mbits = [b if rng.random() < 0.2 else 0 for b in mbits]
+    if rng.random() < 0.4:
+        from props import C12
+        mbits = rng.choice([C12.gen50, C12.gen60])(rng)
     f = spec.background(rng, 112, "rand")
     spec.put(f, 0, 5, rng.choice([20, 21]))
     f[32:88] = mbits
@@ -161,6 +164,46 @@ def run_history(rx, calls_json):
     return ";".join(outs)
 
 
+class _Pipe:
+    def __init__(self):
+        self.sent = []
+
+    def send(self, d):
+        self.sent.append(d)
+
+
+class _Flag:
+    value = False
+
+
+def pipeline_case(rx, calls_json):
+    """the same history through NetSource.handle_messages -> Decode.process_raw, once in upper and once in lower case:
+    the resulting aircraft tables must be identical (keys, live, position and the attached Comm-B values)"""
+    global _DEC
+    with contextlib.redirect_stdout(io.StringIO()):
+        from pyModeS.streamer import decode as _d
+        from pyModeS.streamer import source as _s
+    calls = json.loads(calls_json)
+    tables = []
+    for case in (str.upper, str.lower):
+        ns = object.__new__(_s.NetSource)
+        ns.stop_flag = _Flag()
+        ns.raw_pipe_in = _Pipe()
+        ns.reset_local_buffer()
+        d = _d.Decode(latlon=rx)
+        for tnow, adsb, commb in calls:
+            msgs = sorted([[case(m), t] for t, m in adsb] + [[case(m), t] for t, m in commb], key=lambda x: x[1])
+            n0 = len(ns.raw_pipe_in.sent)
+            ns.handle_messages(msgs)
+            for data in ns.raw_pipe_in.sent[n0:]:
+                d.process_raw(data["adsb_ts"], data["adsb_msg"], data["commb_ts"], data["commb_msg"], tnow)
+        t = {}
+        for k, a in d.get_aircraft().items():
+            t[k] = tuple(repr(a.get(f)) for f in ("live", "lat", "lon", "tpos", "call", "tas", "roll", "rtrk", "ias", "mach", "hdg", "trk50", "gs50", "t50", "t60"))
+        tables.append(t)
+    return "same" if tables[0] == tables[1] else "differ: %s" % sorted(set(tables[0].items()) ^ set(tables[1].items()))[:2]
+
+
 def outputs_match(real_out, model_out):
     import re
     import core
@@ -239,3 +282,5 @@ def cases(ctx):
         op = "trk %s,%s %s" % (fr(rx[0]), fr(rx[1]), encode_calls(calls))
         yield dict(op=op, real=("h:props.C17.run_history", [list(rx), cj]), pred=["pred_history", cj, tj], tag="history",
                    trivial=not truth)
+        if rng.random() < 0.25:
+            yield dict(op=None, real=("h:props.C17.pipeline_case", [list(rx), cj]), expect="same", tag="pipeline-case")
